@@ -1880,3 +1880,24 @@ def history_arithmetic(h):
 def history_all(h):
     """BOUNDED: queries, conversions, arithmetic, validity after a history (C15)"""
     return _history_run(["registry_history", "pure_queries", "scalar_getvalue", "db_lookup", "convert_exp", "arith", "array_powers", "validity", "obtain", "construct_forms"])
+
+
+@probe("scalar_pow")
+def scalar_pow(h):
+    """C04/C06: Scalar ** n is the n-fold product (quantity, exponents per type, base magnitude), n = 1..9"""
+    from barril.units import Scalar
+
+    for a in (Scalar(3.0, "cm"), Scalar(2.0, "ft"), Scalar(3.0, "km") / Scalar(2.0, "min"), Scalar(1.5, "psi")):
+        for n in range(1, 10):
+            try:
+                p = a**n
+            except Exception as e:
+                return {"reproduced": True, "call": "%r ** %d" % (a, n), "observed": repr(e), "expected": "the %d-fold product" % n}
+            ref = a
+            for _ in range(n - 1):
+                ref = ref * a
+            mp, dp = magnitude(p)
+            mr, dr = magnitude(ref)
+            if p.GetQuantity() != ref.GetQuantity() or dp != dr or not close(mp, mr, 1e-9) or not close(p.GetValue(), ref.GetValue(), 1e-9):
+                return {"reproduced": True, "call": "%r ** %d" % (a, n), "observed": "%r (%s)" % (p, dp), "expected": "%r (%s)" % (ref, dr)}
+    return {"reproduced": False}
